@@ -47,6 +47,13 @@ def entry_points(ws):
             ents[f.root] = "pairing URL parser"
     for f in ws.find_fns(r"^<sos_core::[\w:]+ as core::str::traits::FromStr>::from_str$"):
         ents[f.root] = "identifier parser (FromStr)"
+    for f in ws.find_fns(r"^<sos_core::[\w:]+ as core::convert::TryFrom<(&\[u8\]|alloc::string::String|alloc::vec::Vec<u8>)>>::try_from$"):
+        ents[f.root] = "identifier parser (TryFrom bytes/string)"
+    # wire frames parsed outside WireEncodeDecode (no spawn_blocking around them)
+    for f in ws.find_fns(r"^sos_protocol::(bindings::relay::RelayPacket::decode_split|decode_uuid)$"):
+        ents[f.root] = "wire frame parser"
+    for f in ws.find_fns(r"^sos_vault::vault::Header::read_\w+_slice$"):
+        ents[f.root] = "vault header reader (slice)"
     for f in ws.find_fns(r"FileSystemEventLog<T, E>.*::(iter|record_stream|load_tree|rewind|diff_records)(::|$)|sos_filesystem::event_log::read_event_buffer"):
         ents[f.root] = "event log file reader"
     return ents
